@@ -6,6 +6,7 @@ code_data/.  At each point the scheduler (seeded PRNG, or a recorded decision li
 replay) may hand the baton to another caller.  Which thread runs is never decided by the
 OS: every other thread is blocked on its own Event.
 """
+import os
 import sys
 import threading
 
@@ -44,17 +45,23 @@ def _outcome(thunk):
         return ("raise", type(e).__name__, str(e)[:160])
 
 
-def count_lines(thunk):
+def count_lines(thunk, only_files=None, skip_module_frames=False):
     """Number of code_data line events one call takes (used to place an abort)."""
     n = [0]
 
     def loc(frame, event, arg):
         if event == "line":
+            if skip_module_frames and frame.f_code.co_name == "<module>":
+                return loc
+            if only_files is not None and os.path.basename(frame.f_code.co_filename) not in only_files:
+                return loc
             n[0] += 1
         return loc
 
     def glob(frame, event, arg):
         if event == "call" and boot.is_code_data_file(frame.f_code.co_filename):
+            if only_files is not None and os.path.basename(frame.f_code.co_filename) not in only_files:
+                return None  # frames of other files run untraced (their callees are still seen)
             return loc
         return None
 
@@ -66,16 +73,21 @@ def count_lines(thunk):
     return n[0], out
 
 
-def run_with_abort(thunk, k, kind):
+def run_with_abort(thunk, k, kind, only_files=None, skip_module_frames=False):
     """Run thunk; raise an injected exception at the k-th code_data line event.
 
     Returns (fired, where, outcome).  `where` = (function name, relative line) of the
-    frame the abort landed in."""
+    frame the abort landed in.  only_files: count/fire only in frames of these file base names;
+    skip_module_frames: never fire inside a module body (an import in progress)."""
     n = [0]
     info = {"fired": False, "where": None}
 
     def loc(frame, event, arg):
         if event == "line":
+            if skip_module_frames and frame.f_code.co_name == "<module>":
+                return loc
+            if only_files is not None and os.path.basename(frame.f_code.co_filename) not in only_files:
+                return loc
             n[0] += 1
             if n[0] == k:
                 info["fired"] = True
@@ -85,6 +97,8 @@ def run_with_abort(thunk, k, kind):
 
     def glob(frame, event, arg):
         if event == "call" and boot.is_code_data_file(frame.f_code.co_filename):
+            if only_files is not None and os.path.basename(frame.f_code.co_filename) not in only_files:
+                return None
             return loc
         return None
 
